@@ -53,6 +53,13 @@ Definition run16 (st : rstate) (op : N) (arg : value) : option (rstate * value) 
   (* Statement.principals_with(pattern) *)
   | 1605, VList [raw; VInt k; VStr p] =>
       if pat_ok k then Some (st, with_stmt raw (fun s => Ok (vstrs (principals_with (pat_match k p) s)))) else None
+  (* Statement.get_resource_list() *)
+  | 1606, VList [raw] => Some (st, with_stmt raw (fun s => Ok (VList (resource_list s))))
+  (* Statement.resources_with(pattern) *)
+  | 1607, VList [raw; VInt k; VStr p] =>
+      if pat_ok k then Some (st, with_stmt raw (fun s => Ok (vstrs (resources_with (pat_match k p) s)))) else None
+  (* Statement.get_action_list(include_action, include_not_action) *)
+  | 1608, VList [raw; VBool ia; VBool ina] => Some (st, with_stmt raw (fun s => Ok (VList (action_list_of ia ina s))))
   (* [s.Effect for s in PolicyDocument.statement_as_list()] *)
   | 1610, VList [doc] => Some (st, with_doc doc (fun l => Ok (vstrs (map (fun s => name (effect_of s)) l))))
   (* PolicyDocument.allowed_principals_with(pattern), as sorted(set(..)) *)
@@ -68,6 +75,19 @@ Definition run16 (st : rstate) (op : N) (arg : value) : option (rstate * value) 
   | 1614, VList [doc] =>
       Some (st, with_doc doc (fun l =>
         if forallb actions_plain l then Ok (vstrs (allowed_actions (expanded_cat (catalogue st)) l))
+        else Err EUndefined))
+  (* PolicyDocument.statements_with(pattern): [[s.Sid for s in result], [position in the document of each s]] *)
+  | 1615, VList [doc; VInt k; VStr p] =>
+      if pat_ok k then Some (st, with_doc doc (fun l =>
+        Ok (VList [VList (map sid (statements_with (pat_match k p) l));
+                   VList (map (fun i => VInt (Z.of_nat i)) (statements_with_positions (pat_match k p) l))])))
+      else None
+  (* PolicyDocument.get_iam_actions(difference) (sorted, duplicate-free) *)
+  | 1616, VList [doc; VBool diff] =>
+      Some (st, with_doc doc (fun l =>
+        if forallb actions_plain l then
+          Ok (vstrs (if diff then iam_actions_difference (expanded_cat (catalogue st)) (catalogue st) l
+                     else iam_actions (expanded_cat (catalogue st)) l))
         else Err EUndefined))
   | _, _ => None
   end.
